@@ -15,7 +15,7 @@ EXTENDS Config, IOUtils
 VARIABLE l
 Trace == JsonDeserialize(IOEnv.TRACE_FILE)
 tvars == <<vars, l>>
-TraceInit == l = 1 /\ phase = "trace" /\ scn = NoScn /\ attr = Unset /\ used = Unset /\ cfg = Empty
+TraceInit == l = 1 /\ phase = "trace" /\ scn = NoScn /\ attr = Unset /\ attr2 = Unset /\ used = Unset /\ used2 = Unset /\ cfg = Empty
 Consume ==
   /\ l <= Len(Trace)
   /\ l' = l + 1
@@ -24,13 +24,13 @@ Consume ==
        /\ scn' = IF r.kind = "scenario" THEN r.scn ELSE NoScn
        /\ used' = IF r.kind = "scenario" THEN r.used ELSE Unset
        /\ cfg' = IF r.kind = "codec" THEN r.cfg ELSE Empty
-       /\ attr' = r.id
+       /\ attr' = r.id /\ attr2' = Unset /\ used2' = Unset
 TraceSpec == TraceInit /\ [][Consume]_tvars
 
 Rec == Trace[l - 1]
 \* what the life-cycle model says governs the parse of a recorded scenario
 ModelUsed(sc) ==
-  LET vin(ch) == IF sc.ch = ch THEN sc.v ELSE IF sc.ch2 = ch THEN sc.v2 ELSE Unset
+  LET vin(ch) == IF sc.ch = ch THEN sc.v ELSE IF sc.ch2 = ch /\ sc.s2 = sc.s THEN sc.v2 ELSE Unset
       a0 == IF vin("init_kw") # Unset THEN vin("init_kw") ELSE vin("init_config")
       a1 == IF vin("assign_config") # Unset THEN vin("assign_config") ELSE a0
   IN IF vin("parse_kw") # Unset /\ ~sc.again THEN vin("parse_kw") ELSE IF a1 # Unset THEN a1 ELSE vin("mc")
